@@ -2,6 +2,7 @@ package main
 
 import (
 	"fmt"
+	"sort"
 	"go/token"
 	"go/types"
 	"strings"
@@ -161,7 +162,7 @@ func (vc *VC) callStatic(act *Act, st *State, callee *ssa.Function, fnVal Val, a
 		}
 		if !handled {
 			if fc := vc.eng.contractFor(callee); fc != nil {
-				if fc.Inline && len(callee.Blocks) > 0 && act.depth < 6 {
+				if (fc.Inline || vc.inlineRequested(callee)) && len(callee.Blocks) > 0 && act.depth < 6 {
 					res = vc.inline(act, st, callee, args, nil, resT)
 				} else {
 					names := make([]string, len(callee.Params))
@@ -208,8 +209,17 @@ func (vc *VC) callStatic(act *Act, st *State, callee *ssa.Function, fnVal Val, a
 			} else {
 				// a callee that is itself a declared event is abstracted by that event; any other
 				// callee that can (statically) reach an event site invalidates the ghost state
-				touches := len(evs) == 0 && vc.eng.mayReachEvent(callee)
-				res = vc.defaultCall(act, st, resT, "call "+callee.String(), !touches)
+				res = vc.defaultCall(act, st, resT, "call "+callee.String(), true)
+				if len(evs) == 0 {
+					var gs []string
+					for g := range vc.eng.reachableGhosts(callee) {
+						gs = append(gs, g)
+					}
+					sort.Strings(gs)
+					for _, g := range gs {
+						st.ghost[g] = vc.fresh("gh_"+g, "Int")
+					}
+				}
 			}
 		}
 		for _, ev := range evs {
@@ -217,6 +227,19 @@ func (vc *VC) callStatic(act *Act, st *State, callee *ssa.Function, fnVal Val, a
 		}
 		return res
 	}
+}
+
+func (vc *VC) inlineRequested(callee *ssa.Function) bool {
+	if vc.fc == nil {
+		return false
+	}
+	k := vc.eng.keyOf(callee)
+	for _, x := range vc.fc.InlineCalls {
+		if x == k || x == vc.eng.shortName(callee) {
+			return true
+		}
+	}
+	return false
 }
 
 // trivialBody: at most two blocks, no loops, no calls other than builtins.
